@@ -111,6 +111,7 @@ type outLine struct {
 	Plan   json.RawMessage `json:"plan,omitempty"`
 	WallMS int64           `json:"wall_ms"`
 	Start  *uint64         `json:"start,omitempty"`
+	Engine string          `json:"-"` // set for crashes (no plan to tell the engine from)
 }
 
 var verifDir = "/verif"
@@ -461,6 +462,9 @@ func runCheck(prop, tier string) int {
 	for _, k := range keys {
 		ol := a.viols[k]
 		eng := engineOf(cfg, ol.Plan)
+		if ol.Engine != "" {
+			eng = ol.Engine
+		}
 		rf := sim.ReplayFile{Property: ol.Viol.Property, Engine: eng, Oracle: ol.Viol.Oracle, Signature: ol.Viol.Signature, Message: ol.Viol.Message, Seed: ol.Seed, Run: ol.Run, Plan: ol.Plan, Steps: ol.Steps}
 		if cfg.Race && len(ol.Log) > 0 {
 			rf.Message += "\n" + ol.Log[0]
@@ -661,8 +665,10 @@ func runWorker(b *build, env []string, cfg checkCfg, prop, tier string, seed, fr
 		a.mu.Lock()
 		if strings.Contains(msg, "panic:") || strings.Contains(msg, "fatal error:") {
 			sig := "crash:" + panicSite(msg)
-			ol := &outLine{RunResult: sim.RunResult{Seed: seed, Run: run, Viol: &sim.Violation{Property: prop, Oracle: "crash", Signature: sig, Message: "the process died: " + firstLine(msg, "panic:", "fatal error:")}}}
-			if prop == "C11" || prop == "C12" {
+			ol := &outLine{Engine: engine, RunResult: sim.RunResult{Seed: seed, Run: run, Viol: &sim.Violation{Property: prop, Oracle: "crash", Signature: sig, Message: "the process died: " + firstLine(msg, "panic:", "fatal error:")}}}
+			// (httpsim: the service died while serving requests — whatever was accepted
+			// is not imported, whatever was held is not released)
+			if prop == "C11" || prop == "C12" || engine == "httpsim" {
 				k := ol.Viol.Key()
 				if _, ok := a.viols[k]; !ok {
 					a.viols[k] = ol
@@ -866,7 +872,14 @@ func runReplay(path string) int {
 	}
 	if rf.Plan == nil {
 		// crash of the worker: re-run that run index
-		out, err := runTimeout(5*time.Minute, b.scratch, env, b.worker, "-engine", cfg.Engine, "-prop", rf.Property, "-seed", fmt.Sprint(rf.Seed), "-from", fmt.Sprint(rf.Run), "-runs", "1", "-scratch", filepath.Join(b.scratch, "rep"))
+		var out string
+		var err error
+		if rf.Engine == "httpsim" {
+			hj, _ := json.Marshal(map[string]any{"seed": rf.Seed, "from": rf.Run, "stride": 1, "budget_s": 120, "runs": 1, "prop": rf.Property})
+			out, err = runTimeout(5*time.Minute, b.scratch, append(append([]string{}, env...), "VERIF_HTTP="+string(hj)), b.httpWorker, "-test.run", "^TestVerifHTTPSim$", "-test.count=1")
+		} else {
+			out, err = runTimeout(5*time.Minute, b.scratch, env, b.worker, "-engine", cfg.Engine, "-prop", rf.Property, "-seed", fmt.Sprint(rf.Seed), "-from", fmt.Sprint(rf.Run), "-runs", "1", "-scratch", filepath.Join(b.scratch, "rep"))
+		}
 		if exitCode(err) != 0 && (strings.Contains(out, "panic:") || strings.Contains(out, "fatal error:")) {
 			fmt.Printf("VIOLATION property=%s replay=%s\n", rf.Property, path)
 			fmt.Println(tail(out, 1500))
